@@ -1053,6 +1053,132 @@ func crossValidate(e *hk.Env, lines [][]byte) error {
 	return nil
 }
 
+
+// ---------------------------------------------------------------- replay / corpus
+
+// rebuildCase turns a case line (as written by emit; the observed writes are ignored) back into Go values
+// and runs it through Handler.Handle again. The abstract input is re-read from the rebuilt values, so the
+// emitted case is self-consistent even where the rebuild is only approximate (source position, raw values
+// are re-encoded by encoding/json, times are re-parsed).
+type tokStream struct {
+	t []string
+	i int
+}
+
+func (ts *tokStream) next() string {
+	if ts.i >= len(ts.t) {
+		panic("short case line")
+	}
+	x := ts.t[ts.i]
+	ts.i++
+	return x
+}
+func (ts *tokStream) int() int { n, _ := strconv.Atoi(ts.next()); return n }
+func (ts *tokStream) hx() string { return string(hk.Unhx(ts.next())) }
+
+func (ts *tokStream) attr() slog.Attr {
+	tag := ts.next()
+	k := ts.hx()
+	switch tag {
+	case "S":
+		return slog.String(k, ts.hx())
+	case "I":
+		n, _ := strconv.ParseInt(ts.next(), 10, 64)
+		return slog.Int64(k, n)
+	case "U":
+		n, _ := strconv.ParseUint(ts.next(), 10, 64)
+		return slog.Uint64(k, n)
+	case "B":
+		return slog.Bool(k, ts.next() == "1")
+	case "D":
+		n, _ := strconv.ParseInt(ts.next(), 10, 64)
+		return slog.Duration(k, time.Duration(n))
+	case "T":
+		t, err := time.Parse(time.RFC3339Nano, ts.hx())
+		if err != nil {
+			t = testTime
+		}
+		return slog.Time(k, t)
+	case "J":
+		return slog.Any(k, json.RawMessage(ts.hx()))
+	case "X":
+		return slog.Any(k, mFail{ts.hx()})
+	case "R":
+		return slog.Any(k, errT{ts.hx()})
+	case "N":
+		return slog.Any(k, logger.AnsiString{Value: ts.hx()})
+	case "G":
+		n := ts.int()
+		if n == 0 {
+			return slog.Any(k, lv{slog.GroupValue()}) // a LogValuer keeps the empty group from being pruned by slog
+		}
+		return slog.Attr{Key: k, Value: slog.GroupValue(ts.attrs(n)...)}
+	}
+	panic("unknown attribute tag " + tag)
+}
+
+func (ts *tokStream) attrs(n int) []slog.Attr {
+	out := make([]slog.Attr, 0, n)
+	for i := 0; i < n; i++ {
+		out = append(out, ts.attr())
+	}
+	return out
+}
+
+func rebuildCase(e *hk.Env, line string) (c *caseOut, err error) {
+	defer func() {
+		if r := recover(); r != nil {
+			err = fmt.Errorf("unreadable case line: %v", r)
+		}
+	}()
+	f := strings.Fields(line)
+	if len(f) == 0 || f[0] != "E" {
+		return nil, errors.New("not a case line")
+	}
+	ts := &tokStream{t: f[1:]}
+	lvl := ts.int()
+	t, perr := time.Parse(time.RFC3339Nano, ts.hx())
+	if perr != nil {
+		t = testTime
+	}
+	file := ts.next()
+	ts.next()
+	msg := ts.hx()
+	var chain []chainStep
+	for n := ts.int(); n > 0; n-- {
+		switch ts.next() {
+		case "A":
+			chain = append(chain, chainStep{isAt: true, attrs: ts.attrs(ts.int())})
+		default:
+			chain = append(chain, chainStep{group: ts.hx()})
+		}
+	}
+	attrs := ts.attrs(ts.int())
+	return runHandlerCase(e, file != "~", lvl%5, t, msg, chain, attrs, false), nil
+}
+
+// caseLinesOf reads case lines from a replay file written by the runner (JSON with a "case" field) or from a
+// plain text file with one case line per line.
+func caseLinesOf(path string) []string {
+	b, err := os.ReadFile(path)
+	if err != nil {
+		return nil
+	}
+	var payload struct {
+		Case string `json:"case"`
+	}
+	if json.Unmarshal(b, &payload) == nil && payload.Case != "" {
+		return []string{payload.Case}
+	}
+	var out []string
+	for _, l := range strings.Split(string(b), "\n") {
+		if strings.HasPrefix(l, "E ") {
+			out = append(out, l)
+		}
+	}
+	return out
+}
+
 // ---------------------------------------------------------------- driver
 
 func runC01(e *hk.Env) error {
@@ -1066,6 +1192,43 @@ func runC01(e *hk.Env) error {
 		if len(c.writes) == 1 && ncases%every == 0 {
 			xlines = append(xlines, c.writes[0])
 		}
+	}
+
+	// replay of one recorded case: only that case
+	if e.Replay != "" {
+		n := 0
+		for _, l := range caseLinesOf(e.Replay) {
+			c, err := rebuildCase(e, l)
+			if err != nil {
+				return err
+			}
+			c.emit(e)
+			n++
+			if len(c.writes) == 1 {
+				e.Sample("samples", map[string]any{"replayed_line": string(c.writes[0])}, 5)
+			}
+		}
+		e.Stats["cases"] = n
+		e.Stats["replayed"] = n
+		return nil
+	}
+	// corpus first
+	if e.Corpus != "" {
+		files, _ := filepath.Glob(filepath.Join(e.Corpus, "*.case"))
+		nc := 0
+		for _, f := range files {
+			for _, l := range caseLinesOf(f) {
+				if c, err := rebuildCase(e, l); err == nil {
+					c.emit(e)
+					keepLine(c, 1)
+					ncases++
+					nc++
+				} else {
+					e.Count("corpus_unreadable", 1)
+				}
+			}
+		}
+		e.Stats["corpus_cases"] = nc
 	}
 
 	// 0. regression: the witnesses of the stray-comma defect of the pinned commit, and friends
